@@ -10,7 +10,7 @@ demo=$(ls "$D"/*.rs | head -1); name=$(basename "$demo" .rs | tr '-' '_')
 mkdir -p "$W/tests"; cp "$demo" "$W/tests/$name.rs"
 run_demo() { (cd "$W" && cargo test --offline ${DEMO_FLAGS:-} --features curve25519,argon2 --test "$name" 2>&1 | grep -E "^test result|error(\[|:)" | head -3 | tr '\n' ' '); }
 without=$(run_demo)
-git -C "$W" apply "$D/patch.diff" || { echo "$(basename "$D"): APPLY-FAILED"; exit 1; }
+git -C "$W" apply "$D/patch.diff" 2>/dev/null || { git -C "$W" checkout -q --detach "${FALLBACK_BASE:-$(git -C /repo rev-parse HEAD~1)}"; git -C "$W" apply "$D/patch.diff" || { echo "$(basename "$D"): APPLY-FAILED"; exit 1; }; }
 with=$(run_demo)
 rm -f "$W/tests/$name.rs"
 suite=$(cd "$W" && cargo test --workspace --no-fail-fast --offline 2>&1 | grep -E "^test result" | sed 's/test result: //; s/; 0 measured.*//' | tr '\n' '|')
